@@ -1,7 +1,7 @@
 SPECIFICATION Spec
 CONSTANTS
-  ModelDecoders = {"Ping::read", "TxKernel::read", "msg::read_message<Hand>", "Codec::read", "BitmapSegment::read"}
-  ModelLens = {0, 1, 4, 12}
+  ModelDecoders = {"Ping::read", "msg::read_message<Hand>", "Codec::read", "SegmentRequest::read", "BitmapSegment::read"}
+  ModelLens = {0, 1, 12}
   Env <- GoodEnv
 CONSTRAINT Bounded
 INVARIANTS OutcomeOK ConsumedOK AllocBounded Progress InCallOK StepKnown FrameLimitOK ServeBounded
